@@ -685,6 +685,8 @@ def c16():
                 ["%s.txt" % ("x" * k) for k in range(1, min(pop, 200))],
                 ["\u00e9t\u00e9-%d.doc" % i for i in range(pop // 2)] + ["a b.c d-%d" % i for i in range(pop // 2)],
                 ["FOO~1.TXT", "foo~1.txt", "foooooooo.txt", "foooooooo1.txt", "FOOOOO~1.TXT", "fo0123~1.txt", ".hidden", "..x", "a+b,c;d=e[f].g h"],
+                # names whose 8.3 base is empty (only spaces and dots before the extension): the alias is ~N.EXT
+                [b + e for e in (".txt", ".a") for b in (" ", "  ", "   ", ". ", " .", ".. ", " . ", "    ")][:max(6, min(pop, 16))] + [" x", "  x", ".x", "..x"],
             ]
             for names in sets:
                 n += 1
@@ -886,7 +888,7 @@ def c19():
     res.append(("fold-param", core.campaign("fold-param", uni2, wd, feat="nounicode")))
     # directories only another writer or a power cut produces (orphaned beginnings of long-name runs in front of complete runs, runs of
     # every length with and without terminator): every build must decode them as the one specification says, hence alike
-    dirs = gen.orphan_cases(rng, quick=(core.tier() == "quick"))
+    dirs = gen.orphan_cases(rng, quick=(core.tier() == "quick")) + gen.single_slot_cases()
     for n in range(1, 21):
         for ln in (n * 13, n * 13 - 1):
             dirs.append(gen.lfn_run_slots([ord("A") + (k % 26) for k in range(ln)], gen._chk([ord(c) for c in "TARGET  TXT"]))
